@@ -1541,6 +1541,10 @@ impl<'a> Model<'a> {
                         cell_reference,
                         "A LAMBDA was returned but not called".to_string(),
                     )
+                } else if matches!(result, CalcResult::EmptyCell | CalcResult::EmptyArg) {
+                    // A formula that evaluates to an empty cell holds 0 (that is what is stored below):
+                    // dependents evaluated in this same pass must see the 0 too, not the emptiness
+                    CalcResult::Number(0.0)
                 } else {
                     result
                 };
